@@ -58,4 +58,10 @@ Definition index_cast (i : Z) : Z := (i mod 4294967296)%Z.
 (* _nonrevoke_interval_override: grouped by registry; a later entry for the same (registry, requested bound) replaces an earlier one *)
 Definition ovr_find (l : list (string * Z * Z)) (rid : string) (req : Z) : option Z :=
   option_map snd (find (fun e : string * Z * Z => String.eqb (fst (fst e)) rid && Z.eqb (snd (fst e)) req) (rev l)).
-
+(* 64-bit sizes and indices handed to a 32-bit unsigned parameter (`try_into`: max_cred_num, rev_reg_index, reg_idx):
+   refused outside 0 .. 2^32-1, never wrapped *)
+Definition index_try (i : Z) : option Z := if ((0 <=? i) && (i <? 4294967296))%Z then Some i else None.
+(* a timestamp argument of the status-list functions: 0 or negative means that none is supplied *)
+Definition ts_arg (t : Z) : option Z := if (t <=? 0)%Z then None else Some t.
+(* the timestamp of an updated status list: the one supplied, else the one the list had *)
+Definition ts_after (old : option Z) (arg : Z) : option Z := match ts_arg arg with Some t => Some t | None => old end.
